@@ -450,9 +450,9 @@ def run(ctx) -> None:
     bad = core.check_bases()
     if bad:
         raise core.AnchorMissing("class hierarchy changed: " + "; ".join(bad))
-    _convert_aware(ctx, "Timezone")
-    _convert_aware(ctx, "FixedTimezone")
-    _in_timezone(ctx)
+    ctx.step(_convert_aware, ctx, "Timezone")
+    ctx.step(_convert_aware, ctx, "FixedTimezone")
+    ctx.step(_in_timezone, ctx)
     dm = pmod("datetime")
     own = ["DateTime.astimezone", "DateTime.now", "DateTime.int_timestamp", "DateTime.instance"]
     sites = recon.sites_in(dm, own) + [s for s in recon.sites_in(dm, ["DateTime.add"])
@@ -466,13 +466,13 @@ def run(ctx) -> None:
             tz = s.bound.get("tzinfo")
             ctx.ob("RECON.rewrap", "DateTime.add/final-rewrap", tz is not None and nun(tz) in ("self.tz", "dt.tzinfo", "self.tzinfo"),
                    f"tzinfo={nun(tz)}; must be the zone the value was converted into", s.loc)
-    _fixed_contract(ctx)
-    _from_timestamp(ctx)
-    _add_utc_frame(ctx)
-    _int_timestamp(ctx)
-    _aware_instant(ctx)
-    _caller_hack(ctx)
-    _zone_resolution(ctx)
+    ctx.step(_fixed_contract, ctx)
+    ctx.step(_from_timestamp, ctx)
+    ctx.step(_add_utc_frame, ctx)
+    ctx.step(_int_timestamp, ctx)
+    ctx.step(_aware_instant, ctx)
+    ctx.step(_caller_hack, ctx)
+    ctx.step(_zone_resolution, ctx)
     ctx.expect_min("FUNNEL.aware", 2)
     ctx.expect_min("RECON.slot", 30)
     ctx.expect_min("TZINFO", 4)
